@@ -126,6 +126,8 @@ Json::Value gen() {
   }
   sc["interval"] = 5;
   sc["devs"]["8:0"] = "ssd";
+  // signalling takes time on a loaded machine: the hook window can close in the middle of a walk
+  if (P(30)) sc["kill_cost_ms"] = R(50, 900);
   sc["world"] = w0.toJson();
   int nticks = R(3, 8);
   World view = w0;
